@@ -20,7 +20,12 @@ initial response of the message that created the subscription (without the `acti
 exhibits the overtaking), nothing follows the answer of the unsubscribe; (5) an oversized message
 is never answered / dispatched, the connection is closed with 1009; a connection the server ends
 because it cannot serialise an answer is closed with 1011 (switch FixCloseReason: as the code is, NOT
-when the error text exceeds 123 bytes - finding ws-close:no-close-frame:reason-longer-than-123-bytes).
+when the error text exceeds 123 bytes - finding ws-close:no-close-frame:reason-longer-than-123-bytes); (6) MESSAGE FRAMING:
+a client message is one compact frame, or cut into non-final frames closed by an empty FIN frame (a streaming writer), or
+followed by insignificant whitespace inside the read limit; HandleReader stops at the end of the first JSON value, the loop
+drains the rest (mechanism switch DrainRemainder; without it TLC exhibits the connection ended with 1011 / 1002 and a LATER
+message never answered): the server ends a connection only for a documented reason, every owed frame of every later message
+is answered (PDocumentedExit, PLaterAnswered).
 
 Binding: TLC-simulated connection behaviours are replayed against a real jsonrpc.Server mounted as
 websocket handler in an in-process httptest server with a real coder/websocket client; handler
@@ -30,7 +35,10 @@ wire at that step; every exchange is also sent through HandleReader and the HTTP
 server.  Plus free-running stress rounds (monitor = property (2) and the ordering promises) and
 directed rounds for the races the scheduler cannot steer (shutdown / abrupt close in flight,
 read-limit boundary, two connections, internal-error close with short / long reason; the last one
-doubles as the probe that sets FixCloseReason for the TLC runs).
+doubles as the probe that sets FixCloseReason for the TLC runs; FRAMING: a first message in each of ten shapes - one / three
+non-final frames + empty FIN, whitespace in a frame of its own, a value of exactly 128 / 512 bytes + newline, a value + hundreds
+of spaces, as request / notification / batch - followed by three later requests that must all be answered). The replayed
+behaviours and the stress load use the three framings, too.
 """
 import json
 import os
@@ -39,7 +47,7 @@ from vlib import log
 
 FAMILY = "ws"
 INVS = ("TypeOK POnePerFrame PContent PInvocations PWholeFrames PRespFIFO PNotesFIFO PAfterActivation "
-        "PNoNoteAfterUnsub PClientView PReadLimit PCloseIsLast")
+        "PNoNoteAfterUnsub PClientView PReadLimit PCloseIsLast PDocumentedExit PLaterAnswered PDrained")
 
 
 def spec_files():
@@ -89,6 +97,8 @@ def run(ctx):
     # model's switch (the faithful model = the code as it is) and is itself reported with its key.
     dres = run_engine_checked(ctx, binary, "TestWsDirected", {"seed": ctx.seed, "rounds": 60 if thorough else 10})
     dst = dres.get("stats", {})
+    if not dst.get("framing_shapes_followed_by_answered_later_requests") and not ctx.violations and not getattr(ctx, "g04_broken", None):
+        raise vlib.Broken("the framing rounds observed nothing: %s" % dst)
     if not (dst.get("long_close_reason_dropped") or dst.get("long_close_reason_delivered")):
         if not getattr(ctx, "g04_broken", None) and not ctx.violations:
             raise vlib.Broken("the close-reason probe observed nothing: %s" % dst)
@@ -111,16 +121,18 @@ def run(ctx):
     r = check("WsConn_core4.cfg" if thorough else "WsConn_core3.cfg", timeout=3000, coverage=True,
               label="as-is: <= %d frames, 2 subscriptions, every completion order / notification placement" % (4 if thorough else 3))
     vlib.require_actions_covered(r, ignore=("ClientClose", "ServerShutdown", "RespEnd", "RespFail", "RespUnser", "TailClose", "ServerExit",
-                                            "NoteEnd", "NoteFail", "Told", "FinishCancelled"))
+                                            "NoteEnd", "NoteFail", "Told", "FinishCancelled", "ReadDesync"))
     r = check("WsConn_end3.cfg" if thorough else "WsConn_end2.cfg", timeout=3000, coverage=not thorough,
               label="as-is: client close, shutdown, read limit; <= %d frames" % (3 if thorough else 2))
     if not thorough:
-        vlib.require_actions_covered(r, ignore=("RespEnd", "NoteEnd"))
+        vlib.require_actions_covered(r, ignore=("RespEnd", "NoteEnd", "ReadDesync"))
     r = check("WsConn_mutex4.cfg" if thorough else "WsConn_mutex3.cfg", timeout=3000, coverage=not thorough,
               label="as-is: two-step writes under the per-message mutex")
     if not thorough:
         vlib.require_actions_covered(r, ignore=("ClientClose", "ServerShutdown", "RespFail", "RespUnser", "TailClose", "ServerExit", "NoteFail",
-                                                "Told", "FinishCancelled", "GorExit", "RespNone"))
+                                                "Told", "FinishCancelled", "GorExit", "RespNone", "ReadDesync"))
+    check("WsConn_framing.cfg" if thorough else "WsConn_framing2.cfg", timeout=3000,
+          label="as-is: message framing (single frame / fragmented with an empty FIN frame / padding behind the value), <= %d messages" % (3 if thorough else 2))
     check("WsConn_content2.cfg", timeout=3000, label="as-is: every answer class of C11 singly and in batches, <= 2 frames")
     check("WsConn_live.cfg", timeout=3000, label="as-is: every subscription goroutine is eventually told (weak fairness)")
     # the repaired model (FixCloseReason) satisfies the promise without deviation; the as-is model must violate it
@@ -131,7 +143,7 @@ def run(ctx):
             raise vlib.Broken("the as-is model no longer exhibits the close-reason deviation (%s)" % h["violated"])
         ctx.tlc_runs[-1]["expected_violation"] = "PureInternalClose"
     # ---- the switches bite: without the library's mutex / without the `activated` wait TLC shows the failure
-    for cfg, inv in (("WsConn_nomutex.cfg", "PWholeFrames"), ("WsConn_noact.cfg", "PAfterActivation")):
+    for cfg, inv in (("WsConn_nomutex.cfg", "PWholeFrames"), ("WsConn_noact.cfg", "PAfterActivation"), ("WsConn_nodrain.cfg", "PLaterAnswered")):
         h = check(cfg, "switch off: %s must fail" % inv, timeout=600, expect_violation=True)
         if h["violated"] != inv:
             raise vlib.Broken("the model without the mechanism no longer violates %s (%s)" % (inv, h["violated"]))
@@ -162,6 +174,8 @@ def run(ctx):
         "unsubscribe semantics (cancel, wait for the goroutine, then answer) are those of the harness handlers, mirroring "
         "rpc/v10 Unsubscribe; juno's rpc package is not linked",
         "the WithRequestTimeout option and the connection semaphore (WithMaxConnections) are not modelled",
+        "message framing is abstracted to three shapes (one compact frame; non-final frames + empty FIN frame; a value followed by "
+        "whitespace inside the read limit); control frames interleaved with the fragments of a message and compression are the library's",
     ]
     return ctx.finish(
         "model_checking",
